@@ -823,6 +823,8 @@ def recipes():
                 try:
                     if meth == "sq4_other":
                         r = obj.sq4(t=0.4, qrange=4.0, condition=other_cond, outputfile=p)
+                    elif meth == "sq4_other_cond":          # the same lag and range, another selection (or none)
+                        r = obj.sq4(t=0.2, qrange=6.0, condition=other_cond, outputfile=p)
                     else:
                         r = obj.sq4(t=0.2, qrange=6.0, condition=cond, outputfile=p)
                 except ZeroDivisionError:
@@ -833,7 +835,7 @@ def recipes():
         def thunk(o):
             return call(make(), o)
         return dict(name=f"{klass}.{meth}", par=(d, mode, slow, cage, sel, out), thunk=thunk, make=make, call=call,
-                    methods=["relaxation", "relaxation_other_q", "relaxation_other_cond"] + (["sq4", "sq4_other"] if klass == "Dynamics" else []))
+                    methods=["relaxation", "relaxation_other_q", "relaxation_other_cond"] + (["sq4", "sq4_other", "sq4_other_cond"] if klass == "Dynamics" else []))
 
     @reg
     def r_timecorr(S, rng):
